@@ -1,13 +1,14 @@
 from .. import facts
 from ..common import Report, finish
-from ..rules import c08
+from ..rules import c08, carry
 
 RULE = ("(a) every write of a montgomery_form field (aggregate, store, &mut hand-out) of MontyForm / ConstMontyForm / "
         "BoxedMontyForm takes its value from a reducing producer, another form's representative, a select of such, a "
         "reduced constant/parameter field, or a documented raw API; (b) flow-sensitive reduction-level typestate over the "
         "boxed almost-Montgomery routines (AMM(x,y) -> min+1, AMM(x,x) -> 1, AMM(x,1) -> 0, conditional subtraction -> "
         "-1) reaches level 0 at every form store and at every routine documented fully reduced; (c) from_const_params "
-        "copies each field from the constant of the same name")
+        "copies each field from the constant of the same name; (d) inside src/modular/** the carry/borrow returned by "
+        "adc/sbb/mac-family calls is never dropped")
 
 
 def run(tier, t0, prop="C08"):
@@ -18,6 +19,7 @@ def run(tier, t0, prop="C08"):
             c08.run_a(f, rep, cfg)
             c08.run_c(f, rep, cfg)
         c08.run_b(f, rep, cfg)
+        carry.run(f, rep, cfg)
     stale = {}
     for s in rep.stale:
         stale.setdefault(s["key"], set()).add(s["config"])
@@ -26,6 +28,7 @@ def run(tier, t0, prop="C08"):
         rep.floor("montgomery_form_writes", 100)
         rep.floor("from_const_params_sites", 2)
     rep.floor("reduction_level_obligations", 20)
+    rep.floor("carry_returning_calls_in_modular", 20)
     rep.floor("boxed_monty_bodies_interpreted", 40)
     return finish(rep, tier, t0,
                   explanation="who-may-write analysis of the Montgomery representative in all three forms and an abstract "
